@@ -166,6 +166,28 @@ def judge(model, gir):
             hits['vfunc'] += len(wvf)
         classes.append('class|chain=%s|abs=%d|final=%d|cs=%d|impl=%d' % ('>'.join('own' if p in own_classes else ('hidden' if p not in ('GObject', 'GInitiallyUnowned') else p)
                                                                                for p in c['chain']), c['abstract'], c['final'], c['class_struct'], len(c['implements'])))
+    own_fund = set(fu['name'] for fu in model.get('fundamentals', []))
+    for fu in model.get('fundamentals', []):
+        nm = fu['name']
+        nodes = bytype.get(nm, [])
+        if len(nodes) != 1 or nodes[0].tag != 'class':
+            out.append(('fundamental-missing', '%s: %d elements with that type name (%r)' % (nm, len(nodes), [n.tag for n in nodes])))
+            continue
+        n = nodes[0]
+        hits['fundamental'] += 1
+        # the parent is the nearest type of the reported chain that is known; a chain that never reaches a known type
+        # (a root, or a root behind a hidden type) has no parent at all - it is not a GObject
+        parent = None
+        for p in fu['chain']:
+            if p in own_fund or p in own_classes:
+                parent = p[3:]
+                break
+        want = {'name': nm[3:], 'c:type': nm, 'glib:get-type': 'foo_' + objgen.uscore(nm[3:]) + '_get_type', 'glib:fundamental': '1',
+                'parent': parent, 'abstract': '1' if fu['abstract'] else None, 'final': '1' if fu['final'] else None}
+        for a, v in want.items():
+            if n.get(a) != v:
+                out.append(('fundamental-attr:' + a, '%s: %s=%r, expected %r (parents %r)' % (nm, a, n.get(a), v, fu['chain'])))
+        classes.append('fundamental|%s|abs=%d|final=%d' % (fu['kind'], fu['abstract'], fu['final']))
     for f in model['ifaces']:
         nm = f['name']
         nodes = bytype.get(nm, [])
@@ -299,7 +321,7 @@ def run(args):
               'GDumpParser._introspect_error_quark', 'GDumpParser._execute_binary_get_tree', 'MainTransformer._pair_class_virtuals',
               'MainTransformer._pair_quarks_with_enums'):
         chk.require(chk.mechanism_entries[m] > 0, 'mechanism %s never entered' % m)
-    for h in ('class', 'interface', 'property', 'signal', 'boxed', 'enum', 'quark', 'vfunc'):
+    for h in ('class', 'interface', 'property', 'signal', 'boxed', 'enum', 'quark', 'vfunc', 'fundamental'):
         chk.require(chk.monitor_hits[h] > 0, 'oracle part %s judged nothing' % h)
     chk.require(len(harness) <= max(2, n // 50), 'harness failures: %r' % harness[:2])
     chk.assumptions = ['dumps are synthetic (written from the model in the format girepository/gdump.c emits); the fake introspection binary copies them, so GDumpParser._execute_binary_get_tree runs for real',
